@@ -116,6 +116,8 @@ pub struct GenProgOpts {
     pub max_pages: usize,
     pub tricky_text: bool,
     pub images: bool,
+    /// allow images up to 160x160 (files of 50-300 KiB)
+    pub big_images: bool,
 }
 
 pub fn gen_program(r: &mut Rng, o: &GenProgOpts) -> Program {
@@ -177,8 +179,8 @@ pub fn gen_program(r: &mut Rng, o: &GenProgOpts) -> Program {
                     img_n += 1;
                     DocOp::Image {
                         name: format!("Im{}", img_n),
-                        w: 1 + r.below(12) as u32,
-                        h: 1 + r.below(12) as u32,
+                        w: if o.big_images && r.chance(1, 2) { 60 + r.below(100) as u32 } else { 1 + r.below(12) as u32 },
+                        h: if o.big_images && r.chance(1, 2) { 60 + r.below(100) as u32 } else { 1 + r.below(12) as u32 },
                         gray: r.chance(1, 2),
                         seed: r.next_u64(),
                         x,
